@@ -296,6 +296,9 @@ let () =
            gnow := Z0;
            let out = List.map capi_tok rest in
            Printf.fprintf oc "%s %s\n" id (String.concat " " out)
+         | id :: "S" :: _ ->
+           (* whole-system monitor runs are executed on the implementation only *)
+           Printf.fprintf oc "%s S\n" id
          | id :: "T" :: _ ->
            (* concurrent cases are judged by the linearisation checker, not replayed here *)
            Printf.fprintf oc "%s T\n" id
